@@ -1,1 +1,11 @@
 // harness bodies for h2 src/proto/error.rs (compiled in-crate as `verif_h`, feature "verif")
+use super::*;
+
+/// Stub for `impl From<io::Error> for proto::Error`: keeps the error kind, drops the
+/// message string (the real impl formats it with `to_string()`, i.e. the fmt
+/// machinery, which is not the subject of any property).
+pub(crate) fn stub_from_io_error(src: io::Error) -> Error {
+    let k = src.kind();
+    std::mem::forget(src);
+    Error::Io(k, None)
+}
